@@ -241,6 +241,12 @@ def configs(tier, seed):
         [('I', 'I1', {'reverse': True}), ('C', 'C1', {}), ('W', 'w1', {}), ('W', 'w2', {})],
         [('V', 'V1', {}), ('R', 'R1', {}), ('Node', 'n', {'label': 'out'}), ('Gnd', 'g', {'label': 'gnd'})],
     ]
+    # numeric user labels that collide with the automatic numbering of unlabelled nodes
+    base_lists += [
+        [('V', 'V1', {}), ('R', 'R1', {}), ('Node', 'n', {'label': '3'})],
+        [('V', 'V1', {}), ('R', 'R1', {}), ('Node', 'n', {'label': '2'}), ('Gnd', 'g', {'label': '0'})],
+        [('I', 'I1', {}), ('R', 'R1', {}), ('Node', 'n', {'label': '4'}), ('Gnd', 'g', {'label': '1'})],
+    ]
     if tier == 'thorough':
         base_lists += [
             [('V', 'V1', {}), ('R', 'R1', {}), ('L', 'L1', {}), ('W', 'w1', {}), ('Gnd', 'g', {'label': '0'})],
